@@ -143,6 +143,17 @@ def _open(stmt):
 def cases(draw, switches):
     c = draw(full.full_programs(switches, max_lines=6, operand_depth=1))
     prog = c["prog"]
+    if draw(st.integers(0, 9)) == 0:
+        # a short program whose only call of some library procedure sits on a long output line, in front of many string literals
+        k = draw(st.integers(9, 24))
+        lits = [["e", ["str", "S%d" % i]] for i in range(k)]
+        items = []
+        for it in lits:
+            items += [it, ["s", ";"]]
+        call = draw(st.sampled_from([["fn", "INT", [["var", "A"]]], ["var", "A"], ["fn", "VAL", [["str", "12"]]], ["fn", "HEX$", [["num", "255", 255]]],
+                                     ["fn", "STRING$", [["num", "3", 3], ["str", "*"]]], ["fn", "INSTR", [["num", "1", 1], ["str", "AB"], ["str", "B"]]]]))
+        prog[:] = [[10, [["print", [["e", call], ["s", ";"]] + items[:-1]]]]]
+        c["_meta"]["kinds"] = sorted(set(c["_meta"]["kinds"]) | {"call_before_many_literals"})
     trig = False
     # plant trigger words in literals, DATA items and comments
     for _ in range(draw(st.integers(0, 3))):
@@ -173,7 +184,7 @@ def cases(draw, switches):
     pn = draw(st.one_of(st.sampled_from(["prog", "a", "Main_1", "_x", "ecb", "ecb_clsx", "x_ecb_cls", "P9"]),
                         st.sampled_from(libnames) if "procname_not_library_name" not in switches else st.just("prog2")))
     c["procname"] = pn
-    c["size"] = draw(st.sampled_from([32, 32, 33, 80, 255]))
+    c["size"] = draw(st.sampled_from([32, 32, 33, 80, 255, 1, 2, 256, 1000, 32766]))
     c["initialize_vars"] = draw(st.booleans())
     c["paren_unary"] = "paren_unary" in switches
     c["_meta"]["trigger"] = trig
